@@ -1279,3 +1279,45 @@ Proof.
       rewrite (store_cell m2 br r2 _ Hr2). xstep. apply Hfinal; [lia|unfold i32; lia].
     + change (wrap I32 0) with 0. rewrite (store_cell m2 br r2 _ Hr2). xstep. apply Hfinal; [lia|unfold i32; lia].
 Qed.
+
+(* ------------------------------------------------------------------ uc_nextdir *)
+(* char **s: a one-cell block bs holding a pointer into the string block b; beg points into the same string.
+   The model, on byte offsets: backwards one character (uc_prev) unless already at beg (status 1); forwards one
+   character (uc_next), status 1 when that reaches the terminator *)
+Definition nextdir_model (str : bytes) (ob p : nat) (dir : Z) : bool * nat :=
+  if dir <? 0 then (if Nat.eqb p ob then (true, p) else (false, (p - uc_prev (pre_of str ob p))%nat))
+  else let p' := (p + uc_next (skipn p str))%nat in ((nthb str p' =? 0)%N, p').
+
+Theorem tr_uc_nextdir m b bs str ob p dir d fuel :
+  str_at m b str -> bytes_lt256 str -> nth_error m bs = Some [VPtr b (Z.of_nat p)] -> bs <> b ->
+  (ob <= p <= length str)%nat -> (length str < fuel)%nat ->
+  callf cprog fuel (S (S (S d))) F_uc_nextdir [VPtr bs 0; VPtr b (Z.of_nat ob); VInt dir] m
+  = let '(s, p') := nextdir_model str ob p dir in Ok (VInt (b2z s), upd m bs [VPtr b (Z.of_nat p')]).
+Proof.
+  intros Hs H256 Hc Hne Hp Hf. assert (Lbs : (bs < length m)%nat) by (apply nth_error_Some; congruence).
+  assert (Hld : load m bs 0 = Ok (VPtr b (Z.of_nat p))) by (unfold load; rewrite Hc; reflexivity).
+  assert (Hst : forall v, store m bs 0 v = Ok (upd m bs [v])) by (intro v; rewrite (store_ok m bs _ 0 v Hc) by (cbn; lia); reflexivity).
+  enter F_uc_nextdir cf_uc_nextdir. xstep. unfold nextdir_model.
+  destruct (Z.ltb_spec dir 0) as [Ld|Ld]; xstep.
+  - rewrite Hld. xstep. cbn [ptr_cmp]. rewrite Nat.eqb_refl. xstep.
+    destruct (Nat.eqb_spec p ob) as [->|Hpo].
+    + rewrite Z.eqb_refl. xstep. rewrite (upd_self m bs _ Hc). reflexivity.
+    + destruct (Z.eqb_spec (Z.of_nat p) (Z.of_nat ob)); [lia|]. xstep.
+      rewrite Hld. xstep. rewrite (tr_uc_prev m b str ob p d fuel Hs H256) by lia. xstep.
+      rewrite Hst. xstep. reflexivity.
+  - rewrite Hld. xstep. rewrite (tr_uc_next m b str p d fuel Hs H256) by lia. xstep.
+    rewrite Hst. xstep. set (p' := (p + uc_next (skipn p str))%nat).
+    set (m' := upd m bs [VPtr b (Z.of_nat p')]).
+    assert (Hld' : load m' bs 0 = Ok (VPtr b (Z.of_nat p'))) by (unfold load, m'; rewrite mem_upd_same by exact Lbs; reflexivity).
+    assert (Hs' : str_at m' b str) by (apply str_at_upd_other; [exact Lbs|congruence|exact Hs]).
+    rewrite Hld'. xstep.
+    assert (Hp' : (p' <= length str)%nat).
+    { unfold p'. pose proof (uc_end_in (skipn p str)) as He. rewrite skipn_length in He. unfold uc_next.
+      destruct (N.eqb_spec (nthb (skipn p str) (uc_end (skipn p str))) 0) as [E0|E0]; [lia|].
+      rewrite nthb_skipn in E0. destruct (Nat.lt_ge_cases (p + uc_end (skipn p str)) (length str)); [lia|].
+      rewrite nthb_end in E0 by lia. congruence. }
+    replace (Z.of_nat p' + 1 * 0) with (Z.of_nat p') by lia.
+    rewrite (load_str m' b str _ p' Hs') by lia. xstep.
+    rewrite (cc_z0 _ (nthb_lt256 str p' H256)).
+    destruct (nthb str p' =? 0)%N; xstep; reflexivity.
+Qed.
